@@ -5,7 +5,7 @@ CONSTANT Design
 VARIABLES s, st
 vars == <<s, st>>
 Init == s \in Scenarios /\ st = St0
-Next == \/ \E a \in Acts : Enabled(Design, s, st, a) /\ st' = Apply(s, st, a) /\ UNCHANGED s
+Next == \/ \E a \in Acts : Enabled(Design, s, st, a) /\ st' = ApplyD(Design, s, st, a) /\ UNCHANGED s
         \/ st.pc \in {"done", "exited"} /\ UNCHANGED vars
 Spec == Init /\ [][Next]_vars /\ WF_vars(Next)
 InvNotLost == NotLost(s, st)
@@ -13,6 +13,7 @@ InvInterruptible == Interruptible(s, st)
 InvEveryCallback == EveryCallback(s, st)
 InvThird == Third(s, st)
 InvExported == Exported(s, st)
+InvAfterTeardown == AfterTeardown(s, st)
 Terminates == <>(st.pc \in {"done", "exited"})
 Emit == st = St0 => PrintT(<<"CASE", ToJson(s)>>)
 =============================================================================
